@@ -111,9 +111,14 @@ def run_config(H, cfg, tier):
                     model = ob.get("model")
                     vals = {}
                     if model is not None and mm is not None:
-                        for name, (_, c) in mm.inputs.items():
+                        for i, (name, (knd, c)) in enumerate(mm.inputs.items()):
                             try:
-                                vals[name] = _jsonable(model_value(model, c))
+                                if model.get_interp(c.decl()) is None:
+                                    # unconstrained input (payload): a generic distinct non-zero value makes the replay
+                                    # sensitive to misplaced reads, which zeros would hide
+                                    vals[name] = (3 + 2 * i) if knd == "int" else _jsonable(Fraction(37 + 61 * i, 100))
+                                else:
+                                    vals[name] = _jsonable(model_value(model, c))
                             except Exception:
                                 vals[name] = 0
                     info = ob.get("info") or {}
